@@ -146,6 +146,9 @@ def forms_for(cls_name, full=True):
         nc = ("--num-concurrent", "num_concurrent", [("2", 2), ("0", 0)])
         fn = [(t, v) for t, v in FUNCS]
         add("apply", [[(VW + "boom", vw.boom)]], [args])
+        # a callback named on the command line that raises: its exception is the task's, as with the direct call
+        ecbr = ("--end-callback", "end_callback", [(VW + "ecb_raise", vw.ecb_raise)])
+        add("apply", [[(VW + "boom", vw.boom), (VW + "work", vw.work)]], [ecbr])
         if full:
             add("apply", [fn], [args, kwargs, num, GROUP, ECB, CCB])
             add("map", [fn, [("[1,2,3]", [1, 2, 3]), ("[]", []), ("(4,)", (4,))]], [nc, GROUP, ECB, CCB])
@@ -172,6 +175,7 @@ def history_alphabet(cls_name):
             f"map {VW}work [1,2,3] --num-concurrent 2 --group-name g2",
             "cancel 0", "cancel-group g1", "lock", "pool-size 1", "flush", "gather-and-close",
             f"apply {VW}boom --args (1,)",
+            f"apply {VW}boom --end-callback {VW}ecb_raise",
             f"apply {VW}work --group-name 7",
         ]
     return [allf[ln] for ln in lines]
